@@ -107,6 +107,14 @@ RewriteVerdict(obs) ==
 Uniform(n, v) == IF n = 0 THEN <<0>> ELSE [j \in 1..CeilDiv(n, v) |-> IF j * v <= n THEN v ELSE n - (j - 1) * v]
 MinSeq(q) == FoldSeq(LAMBDA x, acc : Min2(x, acc), q[1], q)
 Spread(q) == MaxSeq(q) - MinSeq(q)
+\* Several collections computed in ONE graph (dask.compute(a, b)): each must have the value it has when computed alone.
+\* c.members: sequence of [alone |-> value, together |-> value] (values as in "phases": records or "raised")
+JointVerdict(c) ==
+  IF \E j \in 1..Len(c.members) : c.members[j].alone.kind = "raised" THEN "ok-member-not-computable"
+  ELSE IF \E j \in 1..Len(c.members) : c.members[j].together.kind = "raised" THEN "joint-compute-raises"
+  ELSE IF \E j \in 1..Len(c.members) : ~SameValue(c.members[j].alone, c.members[j].together) THEN "joint-compute-differs-from-alone"
+  ELSE "ok"
+
 RechunkSpecVerdict(c) ==
   LET r == Len(c.shape)
       target(a) == CASE c.spec[a].k = "int" -> Uniform(c.shape[a], c.spec[a].v)
